@@ -86,6 +86,21 @@ macro_rules! login {
     }};
 }
 
+/// a tape of `len` pseudo-random bytes: `fill_bytes` panics when it runs dry, `try_fill_bytes` returns an error; counts what was asked for
+pub struct FiniteTape { inner: StdRng, left: usize, pub requested: usize }
+impl FiniteTape { pub fn new(seed: u64, len: usize) -> Self { FiniteTape { inner: StdRng::seed_from_u64(seed), left: len, requested: 0 } } }
+impl rand::RngCore for FiniteTape {
+    fn next_u32(&mut self) -> u32 { let mut b = [0u8; 4]; self.fill_bytes(&mut b); u32::from_le_bytes(b) }
+    fn next_u64(&mut self) -> u64 { let mut b = [0u8; 8]; self.fill_bytes(&mut b); u64::from_le_bytes(b) }
+    fn fill_bytes(&mut self, dest: &mut [u8]) { self.try_fill_bytes(dest).expect("tape exhausted") }
+    fn try_fill_bytes(&mut self, dest: &mut [u8]) -> Result<(), rand::Error> {
+        self.requested += dest.len();
+        if dest.len() > self.left { self.left = 0; return Err(rand::Error::new("tape exhausted")); }
+        self.left -= dest.len(); self.inner.fill_bytes(dest); Ok(())
+    }
+}
+impl rand::CryptoRng for FiniteTape {}
+
 // ------------------------------------------------------------------------------------------------ generators
 macro_rules! gen_c01 {
     ($cs:ident, $acc:expr) => {{
@@ -315,7 +330,9 @@ macro_rules! gen_c06 {
     ($cs:ident, $acc:expr) => {{
         let acc: &mut Acc = $acc;
         // every combination of explicit / absent identities (the server key enters the envelope both as key and as default identity)
-        let combos: Vec<(Option<&[u8]>, Option<&[u8]>)> = vec![(None, None), (Some(b"alice"), None), (None, Some(b"server.example")), (Some(b"alice"), Some(b"server.example"))];
+        let long_id = vec![0x6cu8; 300];
+        let combos: Vec<(Option<&[u8]>, Option<&[u8]>)> = vec![(None, None), (Some(b"alice"), None), (None, Some(b"server.example")), (Some(b"alice"), Some(b"server.example")),
+            (Some(&long_id[..127]), None), (Some(&long_id[..128]), None), (None, Some(&long_id[..128])), (None, Some(&long_id[..129])), (Some(&long_id[..160]), Some(&long_id[..255])), (Some(&long_id[..256]), Some(&long_id[..300]))];
         for (ci, (idu, ids)) in combos.iter().enumerate() {
             let mut rng = StdRng::seed_from_u64(6000 + ci as u64);
             let p = Params { pw: b"pw", cred: b"id", idu: *idu, ids: *ids, ctx: None };
@@ -352,6 +369,18 @@ macro_rules! gen_c08 {
         let p = Params { pw: b"pw", cred: b"id", idu: None, ids: None, ctx: None };
         let r = (|| -> Result<(), ProtocolError> {
             let (setup, file, _e, _k) = register!($cs, &mut rng, p);
+            // the fake record's key pair is a secret drawn from the setup's own tape: setups around the SAME static key pair on independent
+            // tapes have different fake keys (a fake key computable from public data lets anyone recognise and complete a fake login)
+            {
+                let kp = setup.keypair().clone();
+                let sk_len = <<$cs as CipherSuite>::KeGroup as opaque_ke::key_exchange::group::KeGroup>::SkLen::to_usize();
+                let mut fakes: std::collections::HashSet<Vec<u8>> = std::collections::HashSet::new();
+                for t in 0..8u64 {
+                    acc.tried += 1;
+                    let s = ServerSetup::<$cs>::new_with_key(&mut StdRng::seed_from_u64(8800 + t), kp.clone()).serialize().to_vec();
+                    if !fakes.insert(s[s.len() - sk_len..].to_vec()) { acc.hit(stringify!($cs), "the fake record's key pair does not vary with the setup's tape (same static key pair, independent tapes)", json!({"tape": t})); break; }
+                }
+            }
             let c = ClientLogin::<$cs>::start(&mut rng, p.pw)?;
             let cb = c.state.serialize();
             let real = ServerLogin::<$cs>::start(&mut rng, &setup, Some(file), c.message.clone(), p.cred, ServerLoginStartParameters::default())?;
@@ -657,6 +686,32 @@ macro_rules! gen_c14_c17 {
                 }
             }
         }
+        // a finite tape (fill_bytes panics when it runs dry, try_fill_bytes reports an error): an operation that completes although the tape was
+        // too short has taken a "random" value from somewhere else
+        {
+            let setup = ServerSetup::<$cs>::new(&mut StdRng::seed_from_u64(17500));
+            let c0 = ClientRegistration::<$cs>::start(&mut StdRng::seed_from_u64(17501), p.pw);
+            let s0 = c0.and_then(|c| { let st = c.state; ServerRegistration::<$cs>::start(&setup, c.message, p.cred).map(|s| (st, s)) });
+            let file = s0.and_then(|(st, s)| st.finish(&mut StdRng::seed_from_u64(17502), p.pw, s.message, ClientRegistrationFinishParameters::default())).map(|f| ServerRegistration::<$cs>::finish(f.message));
+            let creq = ClientLogin::<$cs>::start(&mut StdRng::seed_from_u64(17503), p.pw);
+            if let (Ok(file), Ok(creq)) = (file, creq) {
+                for len in (0..=256usize).step_by(8) {
+                    for which in 0..3u8 {
+                        acc.tried += 1;
+                        let mut tape = FiniteTape::new(17600 + len as u64, len);
+                        let done = std::panic::catch_unwind(std::panic::AssertUnwindSafe(|| match which {
+                            0 => ClientLogin::<$cs>::start(&mut tape, p.pw).is_ok(),
+                            1 => ServerLogin::<$cs>::start(&mut tape, &setup, Some(file.clone()), creq.message.clone(), p.cred, ServerLoginStartParameters::default()).is_ok(),
+                            _ => ClientRegistration::<$cs>::start(&mut tape, p.pw).is_ok(),
+                        }));
+                        let opname = ["ClientLogin::start", "ServerLogin::start", "ClientRegistration::start"][which as usize];
+                        if let Ok(true) = done { if tape.requested > len {
+                            acc.hit(stringify!($cs), "an operation completed although the caller's tape ran dry (a random value did not come from the tape)", json!({"operation": opname, "tape_len": len, "bytes_requested": tape.requested}));
+                        } }
+                    }
+                }
+            }
+        }
         // same password, same server, two registrations on independent tapes: different requests, same masking key
         let r = (|| -> Result<(), ProtocolError> {
             let mut rng = StdRng::seed_from_u64(1700);
@@ -680,7 +735,10 @@ macro_rules! gen_c14_c17 {
             // other credential identifiers (empty, prefixes of one another, long ones sharing a long prefix): the SAME request must be
             // evaluated under a different key for each, at registration and at login alike
             let long_a = vec![0x61u8; 300]; let mut long_b = long_a.clone(); long_b[299] = 0x62;
-            let creds: Vec<&[u8]> = vec![b"id", b"", b"i", b"id-other", &long_a[..64], &long_a[..65], &long_a[..128], &long_a, &long_b];
+            let digests: Vec<Vec<u8>> = { use sha2::Digest as _; let mut v = vec![];
+                for x in [&long_a[..65], &long_a[..129], &long_a[..]] { v.push(sha2::Sha256::digest(x).to_vec()); v.push(sha2::Sha384::digest(x).to_vec()); v.push(sha2::Sha512::digest(x).to_vec()); } v };
+            let mut creds: Vec<&[u8]> = vec![b"id", b"", b"i", b"id-other", &long_a[..63], &long_a[..64], &long_a[..65], &long_a[..127], &long_a[..128], &long_a[..129], &long_a, &long_b];
+            for d in digests.iter() { creds.push(&d[..]); }
             let mut r3 = StdRng::seed_from_u64(9);
             let c = ClientRegistration::<$cs>::start(&mut r3, p.pw)?;
             let cl = ClientLogin::<$cs>::start(&mut r3, p.pw)?;
@@ -784,6 +842,20 @@ macro_rules! gen_c16 {
                 secrets.push(cf.session_key.to_vec());
             }
             for sec in secrets { if sec.len() >= 16 && wire.windows(sec.len()).any(|w| w == &sec[..]) { acc.hit(stringify!($cs), "a secret appears verbatim in transmitted / stored bytes", json!({"secret_len": sec.len()})); } }
+            // another SERVER yields another export key even when the client's randomness is the same (the envelope nonce alone must not be
+            // what separates them): several fresh setups on independent tapes
+            {
+                let mut exps: Vec<Vec<u8>> = vec![];
+                for t in 0..4u64 {
+                    let srv = ServerSetup::<$cs>::new(&mut StdRng::seed_from_u64(16900 + t));
+                    let mut r7 = StdRng::seed_from_u64(16800);
+                    let c = ClientRegistration::<$cs>::start(&mut r7, pw)?;
+                    let s = ServerRegistration::<$cs>::start(&srv, c.message, p.cred)?;
+                    exps.push(c.state.finish(&mut r7, pw, s.message, ClientRegistrationFinishParameters::default())?.export_key.to_vec());
+                }
+                acc.tried += 1;
+                for i in 0..exps.len() { for j in 0..i { if exps[i] == exps[j] { acc.hit(stringify!($cs), "registering with another server (fresh setup, same client randomness) yields the same export key", json!({"servers": [j, i]})); } } }
+            }
             // another password yields another export key - also beyond the encodable limit, should a tree accept such passwords at all:
             // same client randomness, passwords that agree on the first 65535 / 65533 bytes
             let over: Vec<u8> = (0..65600u32).map(|i| (i % 241) as u8).collect();
@@ -1433,6 +1505,8 @@ fn external_key_probe(acc: &mut Acc) {
 }
 
 fn main() {
+    // panics inside catch_unwind are findings or expected refusals (finite tapes); they are reported through the JSON result, not on stderr
+    std::panic::set_hook(Box::new(|_| {}));
     let args: Vec<String> = std::env::args().collect();
     let out = match args.get(1).map(|s| s.as_str()) {
         Some("witness") => run(args.get(2).map(|s| s.as_str()).unwrap_or("")),
